@@ -1049,6 +1049,25 @@ class C19(Base):
         return ["native", "c19", "1000000", str(seed)]
 
 
+@prop("C16")
+class C16(Base):
+    title = "layout, indexing, conversions and swizzles preserve every component in order"
+    design_ref = "§6 C16"
+    ops = []
+    inventory = "layout"
+    technique = ("Lean 4 theorems about a model of build.rs's swizzle generator (every word of length 1..upto exactly once, each "
+                 "body reads exactly the named fields) and of the positional views + exhaustive native correspondence: one "
+                 "generated call site per accessor (550), every conversion / view / index / range / pointer / mint form at every "
+                 "position for i32, f64, f32 and a non-numeric Copy type, the generated macro text of this build parsed and fed "
+                 "through the Lean generator model, and the Index/From/Into/AsRef/AsMut impl inventory regenerated from the source")
+    level_note = ("Trusted: Lean kernel + Mathlib; rustc's repr(C) layout and the transmutes are exercised natively (miri in the "
+                  "thorough tier), not proved; the generator model is tied to the macro text build.rs produced for this build; "
+                  "the impl inventory catches conversions the harness does not know about.")
+
+    def native_args(self, tier, seed):
+        return ["native", "c16", "0", str(seed)]
+
+
 @prop("C18")
 class C18(Base):
     title = "approximate-equality and predicate methods test every component"
